@@ -3,6 +3,8 @@ package certgen
 // Replay drivers for lib/certgen (injected with go test -overlay; nothing is written to /repo).
 
 import (
+	"crypto/rsa"
+	"math/big"
 	"encoding/asn1"
 	"encoding/json"
 	"os"
@@ -79,6 +81,27 @@ func TestVerifReplayGenSSHCertWindow(t *testing.T) {
 	}
 	if cert.ValidBefore < cert.ValidAfter || cert.ValidBefore-cert.ValidAfter > maxSecs || cert.ValidAfter < before || cert.ValidAfter > after {
 		t.Logf("REPLAY-CONFIRMED: certificate window [%d,%d] exceeds the requested %d s or is wrapped", cert.ValidAfter, cert.ValidBefore, maxSecs)
+	} else {
+		t.Logf("REPLAY-NOT-REPRODUCED")
+	}
+}
+
+// C10: RSA modulus size / exponent accepted by ValidatePublicKeyStrength.
+func TestVerifReplayKeyStrengthRSA(t *testing.T) {
+	in := verifReplayInputs(t)
+	bits, _ := strconv.Atoi(in["bitlen"])
+	e, _ := strconv.Atoi(in["e"])
+	if bits < 2 || bits > 1<<20 {
+		t.Logf("REPLAY-NOT-REPRODUCED: unusable modulus size %d", bits)
+		return
+	}
+	n := new(big.Int).Lsh(big.NewInt(1), uint(bits-1))
+	n.Add(n, big.NewInt(1))
+	key := &rsa.PublicKey{N: n, E: e}
+	ok, err := ValidatePublicKeyStrength(key)
+	t.Logf("RSA modulus of %d bits, e=%d -> accepted=%v err=%v", n.BitLen(), e, ok, err)
+	if ok && (n.BitLen() < 2048 || e < 65537) {
+		t.Logf("REPLAY-CONFIRMED: a key weaker than RSA-2048/e>=65537 is accepted")
 	} else {
 		t.Logf("REPLAY-NOT-REPRODUCED")
 	}
